@@ -198,7 +198,7 @@ func runC03(r *mc.Run) {
 			chain := c.Choose("chain", len(chains))
 			sigOver := c.Choose("sigover", 5)
 			reenc := c.Choose("reencode", 12)
-			idv := c.Choose("idversion", 8)
+			idv := c.Choose("idversion", 12)
 			lev := c.Choose("levels", 3)
 			memb := c.Choose("member", 5)
 			sigf := c.Choose("sigfield", 12)
@@ -227,6 +227,21 @@ func runC03(r *mc.Run) {
 				setv("version", `3.0`)
 			case 7:
 				setv("version", `"3"`)
+			case 8, 9, 10, 11:
+				// the OTHER document's identifier and / or version: TCB Info is "TDX" / 3, QE Identity is "TD_QE" / 2
+				oid, over := `"TD_QE"`, `2`
+				if di == 1 {
+					oid, over = `"TDX"`, `3`
+				}
+				if idv != 10 {
+					setv("id", oid)
+				}
+				if idv != 9 {
+					setv("version", over)
+				}
+				if idv == 11 {
+					setv("tcbType", `1`)
+				}
 			}
 			switch lev {
 			case 1:
